@@ -123,7 +123,7 @@ func c05Run(payload string) string {
 	vs := scope.NewScope(scope.GlobalScope)
 	var outs []string
 	for _, sec := range strings.Split(payload, c05Sep) {
-		// "<go program> ~ <model program>": the real code runs the first, the model the second (see c05Chains)
+		// "<chained> [~ <as is>] ~ <spec>": the real code runs the first program (see c05Chains)
 		sec = strings.SplitN(sec, c05Alt, 2)[0]
 		src := unhx(strings.SplitN(sec, " ", 2)[0])
 		outs = append(outs, c05Outcome(vs, src))
@@ -368,19 +368,24 @@ var c05InnerDecl = []struct{ name, src string }{
 	{"recursive helper method", "let f := {\"k\": \"helper\", \"m\": func (b) {\nif (b > 0) and (b < 4) {\nreturn [b, this.m(b - 1)]\n}\nreturn this.k\n}}\nlet a := new(f)\nx.mark(a.m(2))"},
 }
 
-// calls of a call result (fix fixes/C05-call-of-call-result.patch): the model does not evaluate `f()(x)` / `o.m().n(x)`
-// itself (chain after a call), so the real code runs the chained form and the model its meaning
-// `let t := f(); t(x)` in a block of its own: {prelude, chained statement, desugared statement}
-var c05Chains = []struct{ pre, chained, plain string }{
-	{"func f() {\nreturn func (a) {\nreturn [7, a]\n}\n}\na := 5", "x.mark(f()(1))\nx.mark(f()(a))\nx.mark(f()(f))", "let c := f()\nx.mark(c(1))\nlet c := f()\nx.mark(c(a))\nlet c := f()\nx.mark(c(f))"},
-	{"func f() {\nreturn func () {\nreturn func (a) {\nreturn a\n}\n}\n}", "x.mark(f()()(3))", "let c := f()\nlet b := c()\nx.mark(b(3))"},
-	{"o := {\"m\": func () {\nreturn {\"k\": 5, \"n\": func (b) {\nreturn b + 1\n}}\n}}", "x.mark(o.m().n(2))", "let c := o.m()\nx.mark(c.n(2))"},
-	{"func f() {\nreturn func () {\nreturn 4\n}\n}\na := [f]", "x.mark(a[0]()())", "let c := a[0]()\nx.mark(c())"},
-	{"func f() {\nreturn 1\n}", "x.mark(f()(2))", "let c := f()\nx.mark(c(2))"},
-	{"func f() {\nraise(\"E\")\n}", "x.mark(f()(2))", "let c := f()\nx.mark(c(2))"},
-	{"c := 9\nfunc f() {\nreturn func (a, b=c) {\nreturn [a, b]\n}\n}", "x.mark(f()(1))\nx.mark(f()(1, 2))", "let g := f()\nx.mark(g(1))\nlet g := f()\nx.mark(g(1, 2))"},
-	{"o := 0\nfunc f(a) {\nreturn func (b) {\nreturn func (c) {\nreturn [a, b, c]\n}\n}\n}", "x.mark(f(1)(2)(3))\no := f(4)(5)\nx.mark(o(6))", "let g := f(1)\nlet c := g(2)\nx.mark(c(3))\nlet g := f(4)\no := g(5)\nx.mark(o(6))"},
-	{"a := {\"k\": 1, \"m\": func () {\nreturn this\n}, \"n\": func (b) {\nthis.k := b\nreturn this.k\n}}\no := new(a)", "x.mark(o.m().n(3))\nx.mark(o.k)", "let c := o.m()\nx.mark(c.n(3))\nx.mark(o.k)"},
+// calls of a call result — known finding call-result-not-callable (candidate repair:
+// fixes/C05-call-of-call-result.patch): `f()(x)` yields the value of `f()`; every call after the first funccall of an
+// identifier node is silently dropped (resolveFunction stops after the first funccall child, functionResolved keeps
+// what follows the LAST one). The model does not evaluate chains after a call itself, so a case carries three
+// programs "<chained> ~ <as is> ~ <spec>": the real code runs the chained form; the model runs `asis` (the chained
+// form with the dropped calls removed = the code as it is; the main result, marked kf=call-result-not-callable) and
+// `plain` (the meaning: `let t := f(); t(x)` in a block of its own; attached as spec=). asis == "" : nothing is
+// dropped in that program (calls on a LATER identifier of the chain work), no kf.
+var c05Chains = []struct{ pre, chained, asis, plain string }{
+	{"func f() {\nreturn func (a) {\nreturn [7, a]\n}\n}\na := 5", "x.mark(f()(1))\nx.mark(f()(a))\nx.mark(f()(f))", "x.mark(f())\nx.mark(f())\nx.mark(f())", "let c := f()\nx.mark(c(1))\nlet c := f()\nx.mark(c(a))\nlet c := f()\nx.mark(c(f))"},
+	{"func f() {\nreturn func () {\nreturn func (a) {\nreturn a\n}\n}\n}", "x.mark(f()()(3))", "x.mark(f())", "let c := f()\nlet b := c()\nx.mark(b(3))"},
+	{"o := {\"m\": func () {\nreturn {\"k\": 5, \"n\": func (b) {\nreturn b + 1\n}}\n}}", "x.mark(o.m().n(2))", "", "let c := o.m()\nx.mark(c.n(2))"},
+	{"func f() {\nreturn func () {\nreturn 4\n}\n}\na := [f]", "x.mark(a[0]()())", "x.mark(a[0]())", "let c := a[0]()\nx.mark(c())"},
+	{"func f() {\nreturn 1\n}", "x.mark(f()(2))", "x.mark(f())", "let c := f()\nx.mark(c(2))"},
+	{"func f() {\nraise(\"E\")\n}", "x.mark(f()(2))", "", "let c := f()\nx.mark(c(2))"},
+	{"c := 9\nfunc f() {\nreturn func (a, b=c) {\nreturn [a, b]\n}\n}", "x.mark(f()(1))\nx.mark(f()(1, 2))", "x.mark(f())\nx.mark(f())", "let g := f()\nx.mark(g(1))\nlet g := f()\nx.mark(g(1, 2))"},
+	{"o := 0\nfunc f(a) {\nreturn func (b) {\nreturn func (c) {\nreturn [a, b, c]\n}\n}\n}", "x.mark(f(1)(2)(3))\no := f(4)(5)\nx.mark(o(6))", "x.mark(f(1))\no := f(4)\nx.mark(o(6))", "let g := f(1)\nlet c := g(2)\nx.mark(c(3))\nlet g := f(4)\no := g(5)\nx.mark(o(6))"},
+	{"a := {\"k\": 1, \"m\": func () {\nreturn this\n}, \"n\": func (b) {\nthis.k := b\nreturn this.k\n}}\no := new(a)", "x.mark(o.m().n(3))\nx.mark(o.k)", "", "let c := o.m()\nx.mark(c.n(3))\nx.mark(o.k)"},
 }
 
 // ---------------------------------------------------------------- random programs
@@ -779,10 +784,18 @@ func init() {
 			for _, ch := range c05Chains {
 				for _, cx := range []struct{ pre, post string }{{"", ""}, {"func g() {\n", "\n}\ng()"}, {"for b in [1] {\n", "\n}"}} {
 					goSrc := ch.pre + "\n" + cx.pre + ch.chained + cx.post
-					mdSrc := ch.pre + "\n" + cx.pre + "if true {\n" + ch.plain + "\n}" + cx.post
-					g.Count("directed call of a call result (model runs the let-desugaring)")
+					specSrc := ch.pre + "\n" + cx.pre + "if true {\n" + ch.plain + "\n}" + cx.post
+					asisSrc := ""
+					if ch.asis != "" {
+						asisSrc = ch.pre + "\n" + cx.pre + ch.asis + cx.post
+					}
+					g.Count("directed call of a call result (known finding call-result-not-callable; spec = let-desugaring)")
 					lz.Emit(func() string {
-						return evPayload(goSrc) + c05Alt + evPayload(mdSrc) + c05Sep + evPayload("a") + c05Sep + evPayload("o")
+						first := evPayload(goSrc)
+						if asisSrc != "" {
+							first += c05Alt + evPayload(asisSrc)
+						}
+						return first + c05Alt + evPayload(specSrc) + c05Sep + evPayload("a") + c05Sep + evPayload("o")
 					})
 				}
 			}
